@@ -81,17 +81,28 @@ func (k Keeper) Authenticate(ctx sdk.Context, sourceChain, destinationChain, por
 	if !found {
 		return false
 	}
-	flag := false
 	for _, rule := range rules {
-		flag, _ = regexp.MatchString(
-			ConvWildcardToRegular(rule),
-			sourceChain+","+destinationChain+","+port,
-		)
-		if flag {
-			break
+		if matchRule(rule, sourceChain, destinationChain, port) {
+			return true
 		}
 	}
-	return flag
+	return false
+}
+
+// matchRule reports whether the rule "source,dest,port" matches the given
+// fields one by one: a "*" field matches any value, any other field matches
+// only the identical string.
+func matchRule(rule string, fields ...string) bool {
+	parts := strings.Split(rule, ",")
+	if len(parts) != len(fields) {
+		return false
+	}
+	for i, part := range parts {
+		if part != "*" && part != fields[i] {
+			return false
+		}
+	}
+	return true
 }
 
 // ConvWildcardToRegular convert wildcard to regular
